@@ -32,7 +32,7 @@ COPY_ENS = ["typeis(result, CircuitCompositeOperation)", "fresh(result)", "fresh
             "result.repetition_strategy is self.repetition_strategy",
             F_G, F_C, F_R]
 contract("CircuitCompositeOperation.copy", params=dict(self=CCO, relation_transfer_lookup=OPT(DICT(OP, OP))), returns=CCO, props=P + ["C05"],
-         fresh_result=True, inst_depth=2, split=4,
+         fresh_result=True, inst_depth=2, split=4, heap_closure=True,
          modifies=REL_FIELDS + ["graph", "dict", "CircuitCompositeOperation._circuit_graph"],
          ensures=COPY_ENS + [
              # (consequence used by repeat: the copy's operations occur in no graph that existed before)
